@@ -6,7 +6,7 @@ VARIABLE row
 Init == row = 0
 Next == row = 0 /\ row' \in 1..Len(Obs)
 Emit == row = 0 \/ (Obs[row].ok =>
-          \A x \in MavenViolations(Obs[row].universe, Obs[row].root, Obs[row].graph) :
+          \A x \in MavenViolations(Obs[row].universe, Obs[row].root, Obs[row].graph, Obs[row].softonly) :
              CSVWrite("%1$s", <<ToJson([law |-> x[1], n |-> row, k |-> x[2]])>>, RejFile))
 ASSUME CSVWrite("%1$s", <<ToJson([law |-> "stats", n |-> Len(Obs), k |-> 0])>>, RejFile)
 =============================================================================
